@@ -58,6 +58,10 @@ def ite(c, a, b):
     return a if c else b
 
 
+def min2(a, b):
+    return a if a < b else b
+
+
 def defined(A, i):
     return True
 
@@ -70,7 +74,7 @@ def approx(a, b, tol=1e-4):
     return abs(float(a) - float(b)) <= tol * max(1.0, abs(float(a)), abs(float(b)))
 
 
-NATIVE = dict(CODE_BOUND=64, implies=implies, iff=iff, cnt=cnt, cntT=cntT, sumI=sumI, g=g, entsum=entsum, ite=ite, log=math.log,
+NATIVE = dict(CODE_BOUND=64, min2=min2, implies=implies, iff=iff, cnt=cnt, cntT=cntT, sumI=sumI, g=g, entsum=entsum, ite=ite, log=math.log,
               defined=defined, same_seq=same_seq, approx=approx)
 
 
